@@ -48,6 +48,10 @@ TECHNIQUE = "runtime monitoring: print/parse round-trip oracle steered to layout
 CHARS = "abc xyzé,:[]{}中 '\U0001F600\U0001D4B3\u2028\u2029"
 
 
+DATA_LIKE_STRINGS = ["[]", "{}", "[1, 2]", "[[], {}]", " [null]", "[true, false]", "0", "null", "true", "{ }",
+                     "None", "(1, 2)", "1e5", "NaN", "[1, 2.5, [3]]"]
+
+
 def gen_str(rng, n=None):
     n = rng.choice([0, 1, 3, 8, 40, 40, 147, 148, 149, 150, 197, 260]) if n is None else n
     return "".join(rng.choice(CHARS) for _ in range(n))
@@ -65,10 +69,16 @@ def gen_scalar(rng, width=None):
     if k < 0.04:
         # ints all the same: members of an IntEnum of the application (json.dumps writes 200), an IntFlag
         return rng.choice([Status.OK, Status.GONE, Perm.R | Perm.W, Perm.R])
+    if k < 0.07:
+        # strings that READ like data (the body of a response kept as text): they are strings
+        # (no quotes in them: the property is about strings without quote characters)
+        return rng.choice(DATA_LIKE_STRINGS)
     if k < 0.25:
         return gen_str(rng)
     if k < 0.5:
-        return rng.choice([0, 1, -5, 123456789, 10 ** 20, -10 ** 15, rng.randrange(10 ** 6)])
+        # (also ints no float can hold)
+        return rng.choice([0, 1, -5, 123456789, 10 ** 20, -10 ** 15, rng.randrange(10 ** 6), 10 ** 400, -2 ** 1100,
+                           2 ** 1024])
     if k < 0.65:
         return rng.choice([0.5, -1.25, 1e22, 1e-7, 3.0, -0.0, 2.5e-300, 123456.789])
     if k < 0.8:
@@ -449,6 +459,10 @@ def run_shard(ctx):
                 small = rng.choice([{"x": 1}, {"k": "v", "n": None}, [1, 2], {"q": [], "p": {}}])
                 inner = alias(rng, small)
             obj = wrap(rng, inner, rng.choice([0, 0, 1, 2, 3, 5]))
+            if i % 25 == 3:
+                # the whole value is one string that reads like data
+                obj = DATA_LIKE_STRINGS[(i // 25) % len(DATA_LIKE_STRINGS)]
+                ctx.count("values_that_are_one_string_reading_like_data")
             judge(ctx, obj, jm, {"json_mode": jm, "value": obj, "coloured_first": rng.random() < 0.3,
                                  "fresh_printer": rng.random() < 0.1, "route": rng.choice(ROUTES)})
             if i == 0:
